@@ -430,6 +430,27 @@ fn gen_case(rng: &mut Rng, multi_thread: bool, small: bool) -> Case {
             .collect();
         return Case { timeout_ms: u64::MAX, reqs, multi_thread: false, reissue: vec![] };
     }
+    if !multi_thread && !small && rng.chance(1, 40) {
+        // FLOOD: several hundred requests of one kind outstanding at the same time (a strategy that re-quotes a
+        // whole book at once); "independent of how many requests are outstanding"
+        let timeout_ms = *rng.pick(&[1000u64, 5000]);
+        let n = rng.range_u(300, 1200);
+        let kind = rng.below(3);
+        let reqs = (0..n)
+            .map(|k| Req {
+                open: match kind {
+                    0 => true,
+                    1 => false,
+                    _ => k % 2 == 0,
+                },
+                instr: rng.usize_below(3),
+                send_ms: rng.range(0, 2) as u64,
+                delay_ms: if rng.chance(1, 50) { None } else { Some(timeout_ms - 1 - rng.range(0, 20) as u64) },
+                out: *rng.pick(&[Out::Ok, Out::Ok, Out::Ok, Out::Filled, Out::Err]),
+            })
+            .collect();
+        return Case { timeout_ms, reqs, multi_thread: false, reissue: vec![] };
+    }
     let timeout_ms = if multi_thread { 60 } else { *rng.pick(&[50u64, 100, 1000, 5000]) };
     let n = if small { rng.range_u(1, 12) } else if multi_thread { rng.range_u(1, 60) } else if rng.chance(1, 4) { rng.range_u(100, 300) } else { rng.range_u(1, 60) };
     let burst = rng.chance(1, 2);
@@ -497,6 +518,9 @@ fn execute(case: &Case, report: &mut Report) {
             }
             let nontrivial = case.reqs.len() >= 3 && out.by_client >= 1 && out.by_timeout >= 1;
             report.case(h, nontrivial);
+            if case.reqs.len() >= 300 && !case.multi_thread {
+                report.cover("flood:300_or_more_requests_outstanding_together");
+            }
             if nontrivial && case.reqs.len() <= 5 {
                 report.sample(|| json!({"case": case}));
             }
@@ -768,6 +792,7 @@ fn main() {
             "open_request",
             "cancel_request",
             "50_or_more_outstanding",
+            "flood:300_or_more_requests_outstanding_together",
             "completion_order_differs_from_submission_order",
             "client_names_unknown_instrument(filtered)",
             "same_order_id_requested_again_after_resolution",
